@@ -239,6 +239,8 @@ func c14Run(e *Env) {
 								c14Op{Kind: "receipt", Via: "vault", Pair: pair, From: sender, Legs: []c03Leg{T(pair, sender, w.ModIdx, "4")}},
 								c14Op{Kind: "receipt", Via: "vault", Pair: pair, From: third, Legs: []c03Leg{T(pair, sender, third, "2"), T(pair, vault, w.ModIdx, "3"), T(other, vault, w.ModIdx, "1"), T(pair, vault, third, "1")}},
 								c14Op{Kind: "receipt", Via: "keeper", Pair: pair, From: sender, Legs: []c03Leg{T(other, sender, third, "1"), T(pair, sender, w.ModIdx, "2")}},
+								// the same transfer to the module address made by the constructor of a contract-creation transaction (no callee)
+								c14Op{Kind: "receipt", Via: "keeper-create", Pair: pair, From: sender, Legs: []c03Leg{T(pair, sender, w.ModIdx, "2")}},
 							)
 							ops = append(ops,
 								// 32-byte accounts on the Cosmos side
